@@ -33,6 +33,7 @@ structure H where
   nodelay : Bool := false      -- UV_HANDLE_TCP_NODELAY set before the handle had a socket (applied in uv__stream_open)
   keepalive : Bool := false    -- UV_HANDLE_TCP_KEEPALIVE, likewise
   qsize : Nat := 0             -- capacity of the queued_fds array (0 = not allocated)
+  stalled : Bool := false      -- POLLIN not re-armed after a failed uv_accept (stream.c:592-596) until uv_listen is called again
   deriving Repr
 
 /-- `fail <syscall> <occurrence> <errno>` lines preceding the op -/
@@ -116,7 +117,7 @@ def acceptMove (s : St) (inj : Inj) (srv cli : Nat) (ckind : HKind) : St :=
   else
     -- stream.c:592-596: POLLIN is re-armed only `if (err == 0)`: after a failed uv_accept the server
     -- stops accepting until uv_listen is called again
-    (s0.run [.closeOwner (.handle srv .acc) false]).setH srv (fun h => { h with listening := false })
+    (s0.run [.closeOwner (.handle srv .acc) false]).setH srv (fun h => { h with stalled := true })
 
 /-- uv_accept, `done:` (stream.c:571-597): the next queued descriptor (if any) becomes the pending one; the array is
     freed when it empties -/
@@ -163,7 +164,7 @@ def ipcKind : HKind → Kind | .tcp => .ipcTcp | .udp => .ipcUdp | _ => .ipc
 /-- a listening server with a connection in its backlog and no connection held (POLLIN armed) -/
 def serverReady (s : St) : Option Nat :=
   (List.range s.hs.length).find? (fun i => match s.liveH i with
-    | some h => isStream h.kind && h.listening && h.pending > 0 && !s.has (.handle i .acc) | none => false)
+    | some h => isStream h.kind && h.listening && !h.stalled && h.pending > 0 && !s.has (.handle i .acc) | none => false)
 
 /-- an IPC pipe that is reading and has descriptors in flight -/
 def ipcReady (s : St) : Option Nat :=
@@ -232,6 +233,18 @@ def recvQueue (inj : Inj) (i : Nat) : Nat → Nat → St → Bool → St × Bool
                   (fun h => { h with qsize := h.qsize + 8 })) false
     else recvQueue inj i (j + 1) n (s.run [.transfer (.temp j) (.handle i .q)]) false
 
+/-- uv_pipe_pending_type: the handle kind the callback creates for a received descriptor -/
+def hkindOfIpc : Kind → HKind | .ipcTcp => .tcp | .ipcUdp => .udp | _ => .pipe
+
+/-- the read callback with policy `accept`: `while (uv_pipe_pending_count(h) > 0)` take the pending descriptor
+    (oldest first: earlier messages' descriptors still queued come before this message's) into a fresh handle -/
+def ipcAcceptAll (inj : Inj) (i : Nat) : Nat → St → St
+  | 0, s => s
+  | n + 1, s =>
+    match find? s.l.1.led (.handle i .acc) with
+    | none => s
+    | some e => ipcAcceptAll inj i n (cbAccept s inj i (hkindOfIpc e.kind) (isStream (hkindOfIpc e.kind)))
+
 /-- uv__read on an IPC pipe (stream.c:1090-1160), then the read callback (harness: stop reading on error; with
     policy `accept`, take every pending descriptor into a fresh handle) -/
 def ipcEvent (s : St) (inj : Inj) (i : Nat) : St :=
@@ -242,10 +255,7 @@ def ipcEvent (s : St) (inj : Inj) (i : Nat) : St :=
   let r := recvQueue inj i 0 batch.length s false
   if r.2 then r.1.setH i (fun h => { h with reading := false }) else
   let s := r.1.say s!"cb read h{i} 1"
-  if h.policy = 1 then
-    batch.foldl (fun s k =>
-      if !s.has (.handle i .acc) then s else cbAccept s inj i k (isStream k)) s
-  else s
+  if h.policy = 1 then ipcAcceptAll inj i (nQueued s i + 1) s else s
 
 def runStep (s : St) (inj : Inj) : Option St :=
   match serverReady s with
@@ -534,10 +544,10 @@ def opListen (s : St) (inj : Inj) (h : Nat) : St :=
       | none => ret (ensureSockFail s inj h) false
       | some s =>
         if hh.connected then ret s false else
-        ret (s.setH h (fun x => { x with listening := true, bound := true })) true
+        ret (s.setH h (fun x => { x with listening := true, bound := true, stalled := false })) true
     else if hh.kind = .pipe then
       if !s.has (.handle h .io) || hh.ipc || !hh.bound then ret s false
-      else ret (s.setH h (fun x => { x with listening := true })) true
+      else ret (s.setH h (fun x => { x with listening := true, stalled := false })) true
     else bad s
 
 /-- tcp.c:309-318: with a delayed bind error no socket is made (and no connect(2) either) -/
